@@ -301,7 +301,7 @@ func execC02(seg []Ev) []Ev {
 	// a caller may do what it likes with the constants of a program it was given: nothing another parser compiles depends on it
 	guarded(func() {
 		tp := parsers.NewExpressionParser()
-		if tp.ParseString("TRUE AND FALSE OR 1 = 'x' OR 2.5 > NULL") == nil {
+		if tp.ParseString("TRUE AND FALSE OR 1 = 'x' OR 2.5 > a") == nil {
 			for _, t := range tp.ResultTokens() {
 				if t.Type() == parsers.Constant && t.Value() != nil {
 					t.Value().SetAsString("scribbled by the caller")
